@@ -43,9 +43,11 @@ def decl_lines(decl):
             L.append("OP %d" % oi)
         if o.get("rev") and o["kind"] == "t":
             L.append("RV %d" % oi)
+    if decl.get("greedy") and decl.get("greedy_first"):
+        L.append("GRD 1")
     if decl.get("pos") is not None:
         L.append("ACC %s" % decl["pos"])
-    if decl.get("greedy"):
+    if decl.get("greedy") and not decl.get("greedy_first"):
         L.append("GRD 1")
     if decl.get("pos_metavar"):
         L.append("PMV %s" % hx(decl["pos_metavar"]))
